@@ -203,6 +203,25 @@ func init() {
 		{Kind: "calls", File: "v2/pkg/engine/plan/path_builder_visitor.go", Func: "pathBuilderVisitor.addRootField", Name: "addRootField", Match: am},
 		{Kind: "calls", File: "v2/pkg/engine/plan/path_builder_visitor.go", Func: "pathBuilderVisitor.fieldIsChildNode", Name: "fieldIsChildNode", Match: am},
 	}
+	// C03: the rewrites whose semantic counterparts are the equations of Props.C03
+	an := "v2/pkg/astnormalization/"
+	nm := []string{"if", "return", "for", "f.*", "d.*", "v.*", "m.*", "r.*", "bytes.*", "append", "sjson.*", "jsonparser.*", "continue", "break"}
+	specs["C03"] = []item{
+		{Kind: "calls", File: an + "fragment_spread_inlining.go", Func: "fragmentSpreadInlineVisitor.replaceFragmentSpread", Name: "replaceFragmentSpread", Match: nm},
+		{Kind: "calls", File: an + "fragment_spread_inlining.go", Func: "fragmentSpreadInlineVisitor.EnterSelectionSet", Name: "inlineEnterSelectionSet", Match: nm},
+		{Kind: "calls", File: an + "field_deduplication.go", Func: "deduplicateFieldsVisitor.EnterSelectionSet", Name: "dedupEnterSelectionSet", Match: nm},
+		{Kind: "calls", File: an + "directive_include_skip.go", Func: "directiveIncludeSkipVisitor.handleSkip", Name: "handleSkip", Match: nm},
+		{Kind: "calls", File: an + "directive_include_skip.go", Func: "directiveIncludeSkipVisitor.handleInclude", Name: "handleInclude", Match: nm},
+		{Kind: "calls", File: an + "directive_include_skip.go", Func: "directiveIncludeSkipVisitor.removeParentNode", Name: "removeParentNode", Match: nm},
+		{Kind: "calls", File: an + "variables_extraction.go", Func: "variablesExtractionVisitor.EnterArgument", Name: "extractEnterArgument", Match: nm},
+		{Kind: "calls", File: an + "variables_extraction.go", Func: "variablesExtractionVisitor.variableExists", Name: "extractVariableExists", Match: nm},
+		{Kind: "calls", File: an + "variables_unused_deletion.go", Func: "deleteUnusedVariablesVisitor.LeaveOperationDefinition", Name: "deleteUnusedLeaveOperation", Match: nm},
+		{Kind: "calls", File: an + "inline_fragment_selection_merging.go", Func: "inlineFragmentSelectionMergeVisitor.fieldsCanMerge", Name: "mergeFieldsCanMerge", Match: nm},
+		{Kind: "calls", File: an + "inline_fragment_selection_merging.go", Func: "inlineFragmentSelectionMergeVisitor.fragmentsCanBeMerged", Name: "mergeFragmentsCanBeMerged", Match: nm},
+		{Kind: "calls", File: an + "inline_selections_from_inline_fragments.go", Func: "inlineSelectionsFromInlineFragmentsVisitor.couldInline", Name: "couldInline", Match: nm},
+		{Kind: "calls", File: an + "remove_self_aliasing.go", Func: "removeSelfAliasingVisitor.EnterField", Name: "removeSelfAliasing", Match: nm},
+		{Kind: "calls", File: an + "variables_default_value_extraction.go", Func: "variablesDefaultValueExtractionVisitor.EnterVariableDefinition", Name: "defaultEnterVariableDefinition", Match: nm},
+	}
 	// C15: the literal → JSON converter and the block string value
 	av := "v2/pkg/ast/ast_value.go"
 	asv := "v2/pkg/ast/ast_val_string_value.go"
